@@ -152,4 +152,5 @@ class Cursor:
         pass
 
     def __iter__(self):
-        return iter(self._rows if self._rows is not None else [])
+        # Iterating fetches: deliver each row once and keep count.
+        return iter(self.fetchone, None)
